@@ -684,6 +684,8 @@ class HaltTiming(Harness):
             out.append({"L": L, "layout": [[2, True], [2, True]], "M": 1})
             out.append({"L": L, "layout": [[2, True], [2, False]], "M": 1})
         out.append({"L": 1, "layout": [[3, True]], "M": 2})
+        # trades at several prices during step 0 (the time-0 reference keeps moving), a later excursion at step 2
+        out.append({"L": 1, "layout": [[3, True]], "M": 1, "step0": True})
         if tier == "thorough":
             out.append({"L": 1, "layout": [[5, True]], "M": 1, "second": True})
             # two resting bids swept by one sell of 2 lots (several fills in the halting round), then a second
@@ -709,6 +711,11 @@ class HaltTiming(Harness):
                 {"1": "sym", "3": "sym", "default": 300}}
         if case.get("sweep"):
             menu["per_agent"] = {"0": {"side": "B"}, "1": {"side": "S", "vol_fixed": 2}, "2": {"side": "B"}}
+        if case.get("step0"):
+            menu["active_from"] = 0
+            menu["price_by_time"] = {"0": "sym", "2": "sym", "default": 300}
+            menu["max_orders_by_time"] = {"0": 2}
+            menu["acts_by_time"] = {"0": ["limit"], "1": ["none"], "2": ["limit"]}
         state = {"halts": 0, "halted_at": None, "obs": [], "at_fill": {}}
         r = None
 
@@ -734,7 +741,8 @@ class HaltTiming(Harness):
         ctx = rn.make_run(g, st, menu, on_event=on_event)
         sim = ctx.sim
         ctx.declared_exec = {s.session_id: s.with_order_execution for s in sim.sessions}
-        r = g.real("r", 0, 1, lo_strict=True, hi_strict=True)
+        # with trades in step 0 the reference price is itself a solver term: a concrete rate keeps the line linear
+        r = g.real("r", 0, 1, lo_strict=True, hi_strict=True) if not case.get("step0") else 0.05
         rule = [e for e in sim.events if type(e).__name__ == "TradingHaltRule"][0]
         rule.trigger_change_rate = r
         ctx.runner._run()
